@@ -48,6 +48,25 @@ type VT struct {
 	Ops         int
 	FaultsTaken []string
 	RecvErr     error
+	// Window, if > 0, models a transport with a bounded pipe: send blocks
+	// (with the Conn's sender lock held by the caller) while Window messages
+	// to the peer have not been read by it yet.
+	Window     int
+	peerCursor func() int
+}
+
+func (t *VT) pendingToPeer() int {
+	from := 0
+	if t.peerCursor != nil {
+		from = t.peerCursor()
+	}
+	n := 0
+	for i := from; i < len(t.Wire); i++ {
+		if t.Wire[i].ToPeer {
+			n++
+		}
+	}
+	return n
 }
 
 var errInjected = fmt.Errorf("injected transport fault")
@@ -103,6 +122,12 @@ func (t *VT) NewMessage(ctx context.Context) (rpccp.Message, func() error, capnp
 		}
 		if t.choose("send", 2, t.Faults.Send) == 1 {
 			return errInjected
+		}
+		if t.Window > 0 {
+			vsched.Block("transport.send-window", func() bool { return t.Closed || t.pendingToPeer() < t.Window })
+			if t.Closed {
+				return fmt.Errorf("transport closed")
+			}
 		}
 		b, err := msg.Marshal()
 		if err != nil {
@@ -315,7 +340,11 @@ type Peer struct {
 }
 
 // NewPeer returns a peer handle.
-func (s *Sim) NewPeer() *Peer { return &Peer{S: s} }
+func (s *Sim) NewPeer() *Peer {
+	p := &Peer{S: s}
+	s.T.peerCursor = func() int { return p.cursor }
+	return p
+}
 
 // Build marshals a message built by f.
 func Build(f func(m rpccp.Message)) []byte {
